@@ -395,22 +395,30 @@ func v2(w *World, r *Report) {
 	// withdraw
 	ew := needFn(r, "V-2", w, fref{pkgStake, "StakeCtrler", "exeWithdraw"})
 	if ew != nil {
-		var wd, rw ssa.CallInstruction
-		for _, c := range CallsIn(ew) {
-			switch callName(c.Common()) {
-			case "Withdraw":
-				wd = c
-			case "Reward":
-				rw = c
+		// in exeWithdraw itself, or in the helper it hands the context, the amount and
+		// the ledger accessors to (read in exeWithdraw's terms at each of its calls)
+		ok := false
+		for _, g := range w.withModuleCallees(ew, 1) {
+			var wd, rw ssa.CallInstruction
+			for _, c := range CallsIn(g) {
+				switch callName(c.Common()) {
+				case "Withdraw":
+					wd = c
+				case "Reward":
+					rw = c
+				}
 			}
-		}
-		ok := wd != nil && rw != nil
-		if ok {
-			_, a1 := callRecvArgs(wd.Common())
-			_, a2 := callRecvArgs(rw.Common())
-			ok = len(a1) == 2 && len(a2) == 3 && w.Canon(a1[0]) == w.Canon(a2[1]) && strings.HasSuffix(w.Canon(a1[0]), ".ReqAmt") && w.Canon(a2[0]) == "p0.Sender.Address" && instrDominates(wd, rw)
-			rcv, _ := callRecvArgs(wd.Common())
-			ok = ok && strings.Contains(w.Canon(rcv), "(ledger.ToLedgerKey(p0.Tx.From))#0")
+			if wd == nil || rw == nil {
+				continue
+			}
+			ok = w.inCallerTerms(ew, g, func() bool {
+				_, a1 := callRecvArgs(wd.Common())
+				_, a2 := callRecvArgs(rw.Common())
+				good := len(a1) == 2 && len(a2) == 3 && w.Canon(a1[0]) == w.Canon(a2[1]) && strings.HasSuffix(w.Canon(a1[0]), ".ReqAmt") && w.Canon(a2[0]) == "p0.Sender.Address" && instrDominates(wd, rw)
+				rcv, _ := callRecvArgs(wd.Common())
+				return good && strings.Contains(w.Canon(rcv), "(ledger.ToLedgerKey(p0.Tx.From))#0")
+			})
+			break
 		}
 		r.Check(ok, "V-2", "exeWithdraw:same-amount", "the amount taken from the sender's reward is the amount credited to the sender's balance", "the withdrawn reward and the credited balance are not the same value of the same account", fnSite(w, ew))
 	}
@@ -579,7 +587,9 @@ func v4(w *World, r *Report) {
 			a := c.Common().Args
 			h := a[len(a)-1]
 			hc := w.Canon(h)
-			key := w.FName(fn) + "->stake." + callName(c.Common()) + "#txhash"
+			// the construct is named by the ABCI entry point it belongs to: a helper
+			// that only that entry point reaches is part of it
+			key := w.entryKeyFn(fn) + "->stake." + callName(c.Common()) + "#txhash"
 			switch {
 			case strings.HasSuffix(hc, ".TxHash") && strings.HasPrefix(hc, "p"):
 				r.OK("V-4", key, "the stake's ledger key is the hash of the transaction that creates it", site(w, c))
@@ -705,4 +715,20 @@ func (w *World) unfreezeVerdict(uf *ssa.Function) unfreezeResult {
 		}
 	}
 	return res
+}
+
+// entryKeyFn: the name obligations use for fn — fn's own name, or the name of the
+// single ABCI entry point of the application that (transitively) is its only caller.
+func (w *World) entryKeyFn(fn *ssa.Function) string {
+	name := w.FName(fn)
+	for _, e := range []string{"InitChain", "Info", "BeginBlock", "DeliverTx", "CheckTx", "EndBlock", "Commit", "Query"} {
+		root := "node.(*RigoApp)." + e
+		if name == root {
+			return name
+		}
+		if _, ok := w.onlyReachedFrom(fn, map[string]string{root: ""}, 0, map[*ssa.Function]bool{}); ok {
+			return root
+		}
+	}
+	return name
 }
